@@ -3,10 +3,10 @@
   complex mode of the driver accepts, `Holo`), evaluated over ℂ with Mathlib's complex special functions, the composed
   Jacobian of the linearization is the COMPLEX derivative of plain evaluation along every holomorphic curve.
     ptw_c_hasDerivAt_<f>      complex derivative of the holomorphic table entries (exp expm1 sin cos tan sinh cosh tanh
-                              sigmoid reciprocal log log10 log1p power exponentiate) on their domains (principal branch: slit plane)
+                              sigmoid reciprocal log log10 log1p sqrt power exponentiate) on their domains (principal branch: slit plane)
     ptw_table_hasDerivAt_c    the same through the model's dispatch
     lin_hasDerivAt_c          Jacobian = complex derivative, all holomorphic trees
-  (sqrt / arctan are holomorphic too; their complex statements are not proved — they are covered by
+  (arctan is holomorphic too; their complex statements are not proved — they are covered by
   the correspondence with the real code only.)
 -/
 import NiftyVerif.Props.C03
@@ -103,6 +103,15 @@ theorem ptw_c_hasDerivAt_log1p (x : ℂ) (hx : 1 + x ∈ Complex.slitPlane) :
   refine HasDerivAt.congr_deriv (((hasDerivAt_id x).const_add (1 : ℂ)).clog hx) ?_
   simp only [id_eq]
 
+theorem ptw_c_hasDerivAt_sqrt (x : ℂ) (hx : x ∈ Complex.slitPlane) :
+    HasDerivAt (fun v : ℂ => val_sqrt v) (der_sqrt x) x := by
+  simp only [val_sqrt, der_sqrt, csci_half]
+  show HasDerivAt (fun v : ℂ => v ^ (1 / 2 : ℂ)) ((1 / 2 : ℂ) / x ^ (1 / 2 : ℂ)) x
+  refine HasDerivAt.congr_deriv (Complex.hasStrictDerivAt_cpow_const (c := (1 / 2 : ℂ)) hx).hasDerivAt ?_
+  have e : (1 / 2 : ℂ) - 1 = -(1 / 2 : ℂ) := by ring
+  rw [e, Complex.cpow_neg]
+  ring
+
 theorem ptw_c_hasDerivAt_power (x p : ℂ) (hx : x ∈ Complex.slitPlane) :
     HasDerivAt (fun v : ℂ => val_power v p) (der_power x p) x := by
   simp only [val_power, der_power, csci_1]
@@ -131,6 +140,7 @@ def PtwValidC : Fn → List ℂ → ℂ → Prop
   | .log10, [], x => x ∈ Complex.slitPlane
   | .log1p, [], x => 1 + x ∈ Complex.slitPlane
   | .power, [_], x => x ∈ Complex.slitPlane
+  | .sqrt, [], x => x ∈ Complex.slitPlane
   | .exponentiate, [b], _ => b ≠ 0
   | _, _, _ => False
 
@@ -143,7 +153,7 @@ theorem ptw_table_hasDerivAt_c (f : Fn) (p : List ℂ) (x : ℂ) (h : PtwValidC 
     | exact ptw_c_hasDerivAt_expm1 x | exact ptw_c_hasDerivAt_sinh x | exact ptw_c_hasDerivAt_cosh x
     | exact ptw_c_hasDerivAt_tan x h | exact ptw_c_hasDerivAt_tanh x h | exact ptw_c_hasDerivAt_sigmoid x h
     | exact ptw_c_hasDerivAt_reciprocal x h | exact ptw_c_hasDerivAt_log x h | exact ptw_c_hasDerivAt_log10 x h
-    | exact ptw_c_hasDerivAt_log1p x h | exact ptw_c_hasDerivAt_power x a h | exact ptw_c_hasDerivAt_exponentiate x a h
+    | exact ptw_c_hasDerivAt_log1p x h | exact ptw_c_hasDerivAt_power x a h | exact ptw_c_hasDerivAt_sqrt x h | exact ptw_c_hasDerivAt_exponentiate x a h
 
 /-! ### holomorphic trees -/
 
